@@ -377,7 +377,7 @@ func encCorpus(mode string, p EncProfile) []EncRec {
 }
 
 func genEncRec(r *Rng, mode string, p EncProfile) EncRec {
-	cfg := EncCfg{Mode: mode, Level: []int{0, 1, 2, 3, 4, 5, 6, 8, 9, 10, 11, customLevel, unregLevel}[r.Intn(13)],
+	cfg := EncCfg{Mode: mode, Level: []int{0, 1, 2, 3, 4, 5, 6, 8, 9, 10, 11, customLevel, unregLevel, fgOnlyLevel, fgBgLevel, lateLevel}[r.Intn(16)],
 		Caller: r.Chance(30), TagWidth: 3, MinWidth: 36}
 	if r.Chance(30) {
 		cfg.Name = []string{"svc", "a.b", "Name-1"}[r.Intn(3)]
